@@ -20,6 +20,8 @@ def pick(rng, w):
     return w[-1][0]
 
 # ---------------------------------------------------------------- generators
+# build_heap through: const vector&, vector&&, vector iterators, raw pointers, deque, list, forward_list, single-pass input range
+BUILD_KINDS = ["B", "Bm", "Bi", "Bp", "Bq", "Bl", "Bf", "Bs", "Bs"]
 def gen_dary(rng, nops):
     d = 1 + rng.below(8); rv = rng.below(2)
     r = rng.below(100)
@@ -45,7 +47,9 @@ def gen_dary(rng, nops):
         else:
             name = pick(rng, [("P", 45), ("O", 35), ("S", 8), ("B", 5), ("C", 3), ("UA", 4)])
         if rng.chance(1, 25): ops.append(rng.choice(["Y", "Z", "V,%d" % rng.below(40)])); continue   # copies/moves/reserve
-        if name == "P": k, p = kp(); ops.append("%s,%d,%d" % (rng.choice(["P", "PR"]), k, p)); size += 1   # const& / && overload
+        if name == "P" and size and not dirty and rng.chance(1, 6):
+            ops.append(rng.choice(["PT", "PTR"])); size += 1      # push(top()): the argument aliases the heap's storage
+        elif name == "P": k, p = kp(); ops.append("%s,%d,%d" % (rng.choice(["P", "PR"]), k, p)); size += 1   # const& / && overload
         elif name == "O":
             if size or rng.chance(1, 10): ops.append(rng.choice(["O", "OX"])); size = max(0, size - 1)   # pop / extract_top
         elif name == "S": k, p = kp(); ops.append("S,%d,%d" % (k, p)); dirty = True
@@ -53,7 +57,7 @@ def gen_dary(rng, nops):
         elif name == "B":
             n = rng.choice([0, 1, 2, 3, d, d + 1, d + 2, 2 * d + 1, rng.below(30)])
             l = [kp() for _ in range(n)]
-            ops.append(rng.choice(["B", "Bi", "Bm"]) + "," + ";".join("%d:%d" % x for x in l)); size = n; dirty = False   # 3 overloads
+            ops.append(rng.choice(BUILD_KINDS) + "," + ";".join("%d:%d" % x for x in l)); size = n; dirty = False   # 3 overloads
         elif name == "C": ops.append("C"); size = 0; dirty = False
     if dirty: ops.append("UA")
     ops.append("D")
@@ -119,7 +123,7 @@ def gen_addr(rng, nops):
                 if k not in ks: ks.append(k)
             l = []
             for k in ks: prio[k] = pr(k); l.append("%d:%d" % (k, prio[k]))
-            ops.append(rng.choice(["B", "Bi", "Bm"]) + "," + ";".join(l)); cont = set(ks); dirty = False
+            ops.append(rng.choice(BUILD_KINDS) + "," + ";".join(l)); cont = set(ks); dirty = False
         elif name == "C": ops.append("C"); cont = set(); dirty = False
     if dirty: ops.append("UA")
     ops.append("D")
@@ -149,6 +153,8 @@ def gen_radix(rng, nops):
             ops.append("%s,%x,%d" % (name, k & ((1 << w) - 1), rng.below(50))); cont.append(k)
         elif name == "C": ops.append("C"); cont = []; frontier = lo
         elif not cont: continue
+        elif name == "K" and rng.chance(1, 3):
+            ops.append(rng.choice(["A", "M", "N"])); frontier = min(cont); cont.append(frontier)   # push/emplace/push_to_bucket of top()
         elif name == "K": ops.append("K")
         elif name == "T": ops.append("T"); frontier = min(cont)
         elif name == "O": ops.append("O"); frontier = min(cont); cont.remove(frontier)
